@@ -38,6 +38,7 @@ structure JState where
   pessLocked : List (Nat × Bytes) := []       -- (startTS, key) locked by LockKeys (pessimistic)
   commitPointLost : List Nat := []            -- start ts of txns with a commit-point RPC whose outcome the client could not learn
   lossy : List Nat := []                      -- start ts of txns with any dropped / lost request (C06 is conditional on none)
+  secondaryStatus : List Nat := []            -- start ts of txns for which a CheckTxnStatus was EXECUTED on a key whose lock names another primary (see statusOnSecondary)
   crashed : List String := []                 -- crashed clients
   inGC : List String := []                    -- clients inside a `gc` API call (their status checks are GC's batch resolution)
   deriving Repr
@@ -204,9 +205,26 @@ def insertCheck (j : JState) : Option String :=
       | none => none
     | _ => none
 
+/-- Store-model gap (both mocktikv and the Lean store): TiKV answers a CheckTxnStatus with `verify_is_primary` (client-go
+    always sets it) by `PrimaryMismatch` when the key named as primary carries a lock of the transaction whose primary is
+    ANOTHER key (a resolver holding stale lock info from before a pessimistic transaction changed its primary), and the
+    client then re-reads the lock.  The store models execute the request as if the key were the primary and may roll the
+    lock back although the real primary is committed.  The start ts of such a transaction is remembered; the atomicity and
+    answer oracles do not judge it (what they would report is the models' artefact, not the client's doing). -/
+def statusOnSecondary (s : Store) (cmd : List String) : Option Nat :=
+  match cmd with
+  | "status" :: p :: lt :: _ =>
+    match hx p, lt.toNat? with
+    | some p, some lt =>
+      match (getEntry s.kv p).lock with
+      | some l => if l.startTS == lt && l.primary != p then some lt else none
+      | none => none
+    | _, _ => none
+  | _ => none
+
 /-- C02: records of every transaction are all-or-nothing with one commit ts -/
 def atomicAll (j : JState) : Option String :=
-  let starts := (j.store.kv.flatMap fun (_, e) => e.writes.map (·.startTS)).eraseDups
+  let starts := ((j.store.kv.flatMap fun (_, e) => e.writes.map (·.startTS)).eraseDups).filter (!j.secondaryStatus.contains ·)
   starts.findSome? fun st =>
     match outcomeOf j.store st with
     | .mixed why => if why.endsWith "lock left" then none else some s!"C02 transaction {st}: {why}"
@@ -229,7 +247,7 @@ def asyncCommittedAt (s : Store) (T N : Nat) : Bool :=
 
 /-- C03: what Commit told the client against the MVCC truth -/
 def toldCheck (j : JState) : Option String :=
-  j.told.findSome? fun (st, what) =>
+  (j.told.filter (!j.secondaryStatus.contains ·.1)).findSome? fun (st, what) =>
     let o := outcomeOf j.store st
     let committedAt : Option Nat := committedAtOf j.store st
     match what.splitOn " " with
@@ -408,7 +426,7 @@ def step (j : JState) (line : String) : JState × String :=
         | none => (j, "MISMATCH malformed-event")
         | some (s', f', modelAns) =>
           let rec_ := " ".intercalate ans
-          let j1 := { j with store := s', full := f' }
+          let j1 := { j with store := s', full := f', secondaryStatus := j.secondaryStatus ++ (statusOnSecondary j.store cmd).toList }
           let lostCommit : List Nat := if kind == "lost" then commitPointOf cmd else []
           let lossy : List Nat := if kind == "lost" then (startTSOf cmd).toList else []
           let j1 := { j1 with commitPointLost := j1.commitPointLost ++ lostCommit, lossy := j1.lossy ++ lossy }
